@@ -28,3 +28,17 @@ package keeper
 //@ requires 0 <= feed.Interval && feed.Interval <= T61 && 0 - T61 <= blockTime.Unix() && blockTime.Unix() <= T61
 //@ ensures result == (valPrice.SignalPriceStatus != types.SIGNAL_PRICE_STATUS_UNSPECIFIED
 //@                    && valPrice.Timestamp >= blockTime.Unix() - feed.Interval)
+
+// ---- C07: signal totals and their by-power index move in lock-step ------------------------------------
+//@ spec stpHas(s Store, id Str) Bool = has(s, types.SignalTotalPowerStoreKey(id))
+//@ spec stpAt(s Store, id Str) types.Signal = dec(types.Signal, s[types.SignalTotalPowerStoreKey(id)])
+//@ spec dropIdx(s Store, id Str) Store = stpHas(s, id) ? remove(s, types.SignalTotalPowerByPowerIndexKey(stpAt(s, id).ID, stpAt(s, id).Power)) : s
+
+// Setting a signal's total first removes the index entry of the previous total (if any); power 0 deletes
+// the total, any other power stores the total and exactly one index entry (power, id) -> id.
+// The postcondition gives the whole new store, so no other key may change.
+//@ func (k Keeper) SetSignalTotalPower
+//@ modifies Store_feeds
+//@ ensures signal.Power == 0 ==> Store_feeds == remove(old(dropIdx(Store_feeds, signal.ID)), types.SignalTotalPowerStoreKey(signal.ID))
+//@ ensures signal.Power != 0 ==> Store_feeds == store(store(old(dropIdx(Store_feeds, signal.ID)), types.SignalTotalPowerStoreKey(signal.ID), enc(signal)),
+//@                                               types.SignalTotalPowerByPowerIndexKey(signal.ID, signal.Power), bytes(signal.ID))
